@@ -220,6 +220,8 @@ def run(ck, facts, tier):
 
     from props.c10 import scc_links
     scc_links(ck, facts, "C01.PROVISIONAL")
+    from shared import state as _st
+    _st.any_future_answer(ck, facts, "C01.ANY-FUTURE")
 
     # ------------------------------------------------------------------ NEG-GROUND
     R = "C01.NEG-GROUND"
